@@ -54,8 +54,8 @@ func main() {
 			return nil
 		}
 		rel, _ := filepath.Rel(lib, p)
-		if strings.HasPrefix(rel, "verifshim") {
-			return nil
+		if strings.HasPrefix(rel, "verifshim") || strings.HasPrefix(filepath.Base(rel), "verif_") {
+			return nil // shim sources and the hook files themselves stay as they are
 		}
 		src, err := os.ReadFile(p)
 		if err != nil {
